@@ -359,14 +359,14 @@ def gen_case(rng, stats):
                 return (rng.randint(1, 4),)
             if r < 0.92:
                 return (rng.randint(1, 3), rng.randint(1, 3))
-            return (rng.randint(1, 2), rng.randint(1, 3), rng.randint(1, 2))
+            return (rng.randint(1, 2), rng.randint(1, 3), rng.randint(1, 2))      # at most 12 entries per signal
         if r < 0.08:
             return ()
         if r < 0.62:
             return (rng.randint(1, 4),)
         if r < 0.92:
             return (rng.randint(1, 3), rng.randint(1, 4))
-        return (rng.randint(1, 2), rng.randint(1, 3), rng.randint(1, 3))
+        return (rng.randint(1, 2), rng.randint(1, 3), rng.randint(1, 2))
 
     p_dy = 0.6 if matrix_mode else 0.12
 
@@ -601,7 +601,11 @@ def gen_case(rng, stats):
 # ----------------------------------------------------------------------------- deterministic stress catalogue
 def _mat(r, c, k):
     """a fixed r x c matrix of small integers"""
-    return [[((3 * a + 5 * b + 2 * k + a * b) % 5) - 2 for b in range(c)] for a in range(r)]
+    M = [[((a * a + 3 * a + 2 * b + k + a * b) % 5) - 2 for b in range(c)] for a in range(r)]
+    for a, row in enumerate(M):
+        if c and not any(row):
+            row[(a + k) % c] = 1        # no vanishing rows: every output depends on its input
+    return M
 
 
 def _vec(n, k):
@@ -753,12 +757,12 @@ def stress_cases():
         return {g1: [1, 2], g2: [-1]}, None
     dy('add-then-later-contribution', d_passthrough_later)
 
-    def d_passthrough_second(b):      # the other contribution of K2 comes from a module between add and its consumer
+    def d_passthrough_second(b):      # both inputs of the add have another consumer earlier in the network
         k1, k2 = b.src((2, 3), 1), b.src((2, 3), 1)
-        k = b.mod('add', [k1, k2], [(2, 3)], [1])
-        g2 = b.bilin(k2, 2)
-        g1 = b.bilin(k, 1)
         g3 = b.lin([k1], [(2,)], emit=[1], decomp='cols')
+        g2 = b.bilin(k2, 2)
+        k = b.mod('add', [k1, k2], [(2, 3)], [1])
+        g1 = b.bilin(k, 1)
         return {g1: [2], g2: [1, 1], g3: [1, -2]}, None
     dy('add-both-inputs-get-more', d_passthrough_second)
 
@@ -1065,8 +1069,46 @@ def flat_ints(a):
     return out
 
 
+class ImplLimit(Exception):
+    """the implementation did not finish a tiny case within the CPU budget (or the memory budget)"""
+
+
+@contextlib.contextmanager
+def limited(cpu_seconds=2.0, extra_bytes=1 << 30):
+    """run the implementation on one (tiny) case under a CPU-time alarm and an address-space cap: a faulty
+    implementation may loop or grow without bound (e.g. a DyadCarrier that is added to itself through shared lists);
+    that has to end as a reported failure of the case, not as a runaway process"""
+    import signal, resource
+
+    def on_alarm(signum, frame):
+        raise ImplLimit(f'implementation exceeded {cpu_seconds} s of CPU time on one case')
+    old_handler = signal.signal(signal.SIGVTALRM, on_alarm)
+    soft, hard = resource.getrlimit(resource.RLIMIT_AS)
+    try:
+        with open('/proc/self/statm') as f:
+            now = int(f.read().split()[0]) * resource.getpagesize()
+        cap = now + extra_bytes
+        if hard != resource.RLIM_INFINITY:
+            cap = min(cap, hard)
+        if soft != resource.RLIM_INFINITY:
+            cap = min(cap, soft)
+        resource.setrlimit(resource.RLIMIT_AS, (cap, hard))
+    except (OSError, ValueError):
+        pass
+    signal.setitimer(signal.ITIMER_VIRTUAL, cpu_seconds)
+    try:
+        yield
+    finally:
+        signal.setitimer(signal.ITIMER_VIRTUAL, 0)
+        signal.signal(signal.SIGVTALRM, old_handler)
+        try:
+            resource.setrlimit(resource.RLIMIT_AS, (soft, hard))
+        except (OSError, ValueError):
+            pass
+
+
 def run_impl(pym, classes, case):
-    with contextlib.redirect_stdout(io.StringIO()):         # print_timing reports go nowhere
+    with limited(), contextlib.redirect_stdout(io.StringIO()):         # print_timing reports go nowhere
         sigs, mods, net = build(pym, classes, case)
         net.response()
         states = [None if s.state is None else flat_ints(s.state) for s in sigs]
@@ -1240,7 +1282,7 @@ def oracle_fd(pym, classes, case, sens):
     representable.  Returns (bad, skipped)."""
     dims = [size_of(s['shape']) for s in case['signals']]
 
-    with contextlib.redirect_stdout(io.StringIO()):
+    with limited(), contextlib.redirect_stdout(io.StringIO()):
         sigs, _, net = build(pym, classes, case)
 
     def phi(s, k, j):
@@ -1248,7 +1290,7 @@ def oracle_fd(pym, classes, case, sens):
             sh = tuple(case['signals'][int(key)]['shape'])
             v = [x + (j if (int(key) == s and i == k) else 0) for i, x in enumerate(v)]
             sigs[int(key)].state = np.array(v, dtype=float).reshape(sh) if len(sh) else float(v[0])
-        with contextlib.redirect_stdout(io.StringIO()):
+        with limited(), contextlib.redirect_stdout(io.StringIO()):
             net.response()
         tot = 0
         for sg in sigs:
@@ -1474,14 +1516,19 @@ def run(ctx):
             cases.append((f'gen:{i}', None))
 
     checks, labels, ran = [], [], []
+    nlimit = 0
     for name, case in cases:
         states = None
+        if nlimit >= 3:         # the implementation keeps running away: already reported, do not burn the budget
+            ctx.count('not-run:after-3-runaway-cases')
+            continue
         for attempt in range(20):
             if name.startswith('gen:') and not replaying:
                 case = gen_case(ctx.rng, stats)
             try:
                 states, sens = run_impl(pym, classes, case)
             except Exception as e:      # a valid case must run
+                nlimit += isinstance(e, (ImplLimit, MemoryError))
                 ctx.violation('impl-violates', 'Network.response/sensitivity', 'a well-formed graph evaluates without exception',
                               'module DAG', dict(name=name, case=case), expected='states and sensitivities', got=repr(e)[:500])
                 states = None
@@ -1548,7 +1595,12 @@ def run(ctx):
                           'module DAG', dict(name=name, case=case), expected=[b[1] for b in bad], got=[b[2] for b in bad])
             continue
         if any(is_nonlinear(m) for m in case['modules']) or ctx.search_evaluations % 10 == 0:
-            bad, skipped = oracle_fd(pym, classes, case, sens)
+            try:
+                bad, skipped = oracle_fd(pym, classes, case, sens)
+            except Exception as e:
+                ctx.violation('impl-violates', 'Network.response', 'a well-formed graph evaluates without exception',
+                              'module DAG', dict(name=name, case=case), expected='states', got=repr(e)[:500])
+                continue
             if skipped:
                 ctx.count('oracle-fd:skipped-magnitude')
                 continue
